@@ -541,6 +541,26 @@ func nonEmptyOnSuccess(w *World, fn *ssa.Function) bool {
 				app = true
 			}
 		}
+		// the list is a loop variable: every iteration appends to it, and the loop is left here
+		// only under a flag that starts out false — so at least one iteration has run
+		if !app && v.Op == "loopvar" {
+			if _, steps, ok := loopVarSteps(w, fn, p, v); ok && len(steps) > 0 {
+				grows := true
+				for _, st := range steps {
+					if a := stripConv(st.v); !(a.Op == "builtin" && a.S == "append" && len(a.A) == 2) {
+						grows = false
+					}
+				}
+				ranOnce := hasCond(p, func(a *T, val bool) bool {
+					if a.Op != "loopvar" || !val || a.C != v.C {
+						return false
+					}
+					init, _, ok := loopVarSteps(w, fn, p, a)
+					return ok && stripConv(init).IsConstVal(0)
+				})
+				app = grows && ranOnce
+			}
+		}
 		if !app {
 			return false
 		}
